@@ -11,7 +11,7 @@ Inductive qans := ANone | ASome (a : ranswer).
 Record qstep := mkQ { q_req : rreq; q_known : bool; q_ans : qans; q_panic : bool }.
 Inductive c14case :=
 | RCase (id slot : N) (ct : content) (expected : blockhash) (steps : list rstep)
-| QCase (id slot : N) (ct : content) (expected : blockhash) (held : list bshred) (qs : list qstep).
+| QCase (id slot : N) (ct : content) (expected : blockhash) (held_repair held : list bshred) (qs : list qstep).
 
 Fixpoint reqs_eqb (a b : list rreq) : bool :=
   match a, b with [], [] => true | x :: a', y :: b' => rreq_eqb x y && reqs_eqb a' b' | _, _ => false end.
@@ -116,8 +116,10 @@ Definition answer_sound (expected : blockhash) (r : rreq) (a : ranswer) : bool :
   | _, _ => false
   end.
 
-Definition run_responder (slot : N) (ct : content) (expected : blockhash) (held : list bshred) (qs : list qstep) : list (N * N) :=
-  let sd := fold_left (fun sd s => fst (fst (bs_step true ct slot sd (BDissem s)))) held sd_empty in
+Definition run_responder (slot : N) (ct : content) (expected : blockhash) (held_repair held : list bshred) (qs : list qstep) : list (N * N) :=
+  (* shreds filed through repair under the block's own hash first, then the dissemination *)
+  let sd0 := fold_left (fun sd s => fst (fst (bs_step true ct slot sd (BRepair 1 expected s)))) held_repair sd_empty in
+  let sd := fold_left (fun sd s => fst (fst (bs_step true ct slot sd (BDissem s)))) held sd0 in
   let '(_, res) :=
     fold_left (fun (acc : N * list (N * N)) q =>
                  let '(i, res) := acc in
@@ -140,5 +142,5 @@ Definition run_responder (slot : N) (ct : content) (expected : blockhash) (held 
 Definition c14_run (cs : list c14case) : list (N * N * N) :=
   flat_map (fun c => match c with
                      | RCase id slot ct expected steps => map (fun x => (id, fst x, snd x)) (run_requester_steps slot ct expected steps)
-                     | QCase id slot ct expected held qs => map (fun x => (id, fst x, snd x)) (run_responder slot ct expected held qs)
+                     | QCase id slot ct expected held_repair held qs => map (fun x => (id, fst x, snd x)) (run_responder slot ct expected held_repair held qs)
                      end) cs.
